@@ -44,6 +44,13 @@ pub struct Servers {
 }
 
 impl Servers {
+    /// abandon the client runtime (its workers may be stuck in a non-yielding loop of the code
+    /// under test) and continue with a fresh one
+    pub fn reset_runtime(&mut self) {
+        let old = std::mem::replace(&mut self.rt, tokio::runtime::Builder::new_multi_thread().worker_threads(2).enable_all().build().expect("client runtime"));
+        old.shutdown_background();
+    }
+
     pub fn start(tag: &str) -> Self {
         peers::install_tap();
         Self {
@@ -379,7 +386,8 @@ pub fn seg_cases(thorough: bool) -> Vec<SegCase> {
 
 pub fn run_c06(report: &mut Report) {
     let thorough = report.tier.thorough();
-    let servers = Servers::start("C06");
+    let mut servers = Servers::start("C06");
+    let mut stuck = 0u32;
     let cases = seg_cases(thorough);
     let mut evaluations = 0u64;
     let mut nontrivial = 0u64;
@@ -394,7 +402,16 @@ pub fn run_c06(report: &mut Report) {
             report.observe(&format!("cases skipped after repeated violations on {class_hint}"));
             continue;
         }
+        if stuck >= 12 {
+            report.observe("check stopped early: twelve cases did not deliver their messages");
+            report.set("stopped_early", true);
+            break;
+        }
         let out = run_seg(&servers, case);
+        if !out.problems.is_empty() {
+            servers.reset_runtime();
+            stuck += 1;
+        }
         evaluations += 1;
         *per_xport.entry(format!("{:?}", case.xport)).or_insert(0u64) += 1;
         let in_zone = case.hello_cuts.len() + case.reply_cuts.len() > 0;
@@ -421,7 +438,7 @@ pub fn run_c06(report: &mut Report) {
     report.set("distinct_nontrivial", nontrivial);
     report.set("cases_per_transport", json!(per_xport));
     report.set("cases_whose_read_segmentation_could_not_be_verified", unverified);
-    report.set("exhaustive", true);
+    report.set("exhaustive", stuck < 12);
     report.set("rule", "on each of the three real transports (TLS over loopback with client certificates, SSH with the netconf subsystem, the local Junos cli through the stand-in of hook H2): the server hello and 1-3 pipelined replies are delivered in transport units cut at every position of the stated sets (every single cut in the thorough tier; all positions in and around each delimiter, pairs and subsets of delimiter-zone cuts, groupings of whole messages, byte-by-byte delimiters); a unit is sent only after the client consumed the previous one (verified through the client's own trace events on TLS and the pipe); after the last byte of a message nothing further is sent until its future resolved; non-trivial = cases with at least one cut");
     report.assume("loopback only; SSH segmentation is per CHANNEL_DATA packet (not observable through trace events)");
 }
@@ -566,8 +583,9 @@ pub fn close_cases(thorough: bool) -> Vec<CloseCase> {
 
 pub fn run_c07(report: &mut Report) {
     let thorough = report.tier.thorough();
-    let servers = Servers::start("C07");
+    let mut servers = Servers::start("C07");
     let cases = close_cases(thorough);
+    let mut stuck_runtimes = 0u32;
     let mut evaluations = 0u64;
     let mut distinct = std::collections::BTreeSet::new();
     let mut per_class: std::collections::BTreeMap<String, u32> = std::collections::BTreeMap::new();
@@ -578,11 +596,20 @@ pub fn run_c07(report: &mut Report) {
             report.observe(&format!("remaining cases skipped after three violations of {class_hint}"));
             continue;
         }
+        if stuck_runtimes >= 10 {
+            report.observe("check stopped early: ten cases left the client spinning or hanging");
+            report.set("stopped_early", true);
+            break;
+        }
         let problems = run_close(&servers, case);
         evaluations += 1;
         _ = distinct.insert(format!("{:?}|{:?}|{}", case.xport, case.kind, case.desc));
         if report.want_sample() && evaluations % 41 == 7 {
             report.sample(json!({"transport": format!("{:?}", case.xport), "close": format!("{:?}", case.kind), "case": case.desc}));
+        }
+        if problems.iter().any(|(c, _)| c == "hang" || c == "busy-loop") {
+            servers.reset_runtime();
+            stuck_runtimes += 1;
         }
         for (class, what) in problems {
             if class.starts_with("machinery") {
@@ -594,7 +621,7 @@ pub fn run_c07(report: &mut Report) {
     }
     report.set("evaluations", evaluations);
     report.set("distinct_nontrivial", distinct.len() as u64);
-    report.set("exhaustive", true);
+    report.set("exhaustive", stuck_runtimes < 10);
     report.set("rule", "on each real transport x close kind {clean: TLS close_notify / cli closes stdout / SSH channel EOF; eof: FIN without close_notify / cli exits / SSH channel close; abort: TCP reset / cli SIGKILLed / TCP drop}: the peer closes after a prefix of the hello (every offset in the thorough tier), while the established session is idle, after 0-2 requests were written and before any reply byte, after a prefix of the reply stream, between two replies; then one further request; every pending and subsequent operation must resolve within 2.5 s, without zero-length-read loops or CPU burn, Ok only for replies completely delivered before the close; distinct = (transport, kind, point)");
     report.assume("bounded time is judged with a real-time watchdog three orders of magnitude above the loopback latency");
 }
